@@ -59,6 +59,71 @@ def run_combine(c):
     return float(np.atleast_1d(prec)[0]), float(np.atleast_1d(total)[0])
 
 
+def superposition_relations(rng, tier):
+    """total strength with superposition exponents other than 1 (the exact part fixes them at 1): the documented rule
+    sigma^n = sigma0^n + ss^n + prec^n with n = the TOTAL exponent, whatever the single-phase / multi-phase exponents are;
+    total >= each part, non-decreasing in each part, a single non-zero part is returned unchanged, n = 1 gives the plain sum.
+    Events for Relations.tla."""
+    from .kwn_drv import cmp3
+    ev = [{"e": "init"}]
+    sets = [(1.8, 1.8, 1.4, 1.8), (1.8, 1.8, 1.4, 1.0), (1.8, 1.8, 1.4, 2.0), (1.0, 1.0, 1.0, 1.8), (2.0, 1.5, 1.2, 1.5), (1.3, 2.0, 1.8, 1.0)]
+    try:
+        for (n1, n2, n3, nt) in sets:
+            sm = strength_model(exp1=False)
+            sm.setStrengthSuperpositionExponent(n1, n2, n3, nt)
+            tag = "exponents single=%g same=%g mixed=%g total=%g" % (n1, n2, n3, nt)
+            for k in range(6 if tier == "quick" else 40):
+                s0, ss, pr = [rng.choice([0.0, 1e6, 2e7, 5e7, 1e8]) * rng.choice([1.0, 1.0, 0.37]) for _ in range(3)]
+                sm.sigma0 = s0
+                tot = float(np.atleast_1d(sm.totalStrength(np.array([ss]), np.array([pr])))[0])
+                name = "%s case %d" % (tag, k)
+                want = (s0 ** nt + ss ** nt + pr ** nt) ** (1.0 / nt)
+                ev.append({"e": "rel", "group": "C18:total=documented-superposition(total exponent)", "name": name, "c": cmp3(tot, want, rtol=1e-10, atol=1e-300), "want": "eq"})
+                for part, v in (("base", s0), ("solid-solution", ss), ("precipitate", pr)):
+                    ev.append({"e": "rel", "group": "C18:total>=each-part", "name": "%s %s" % (name, part), "c": cmp3(tot, v, rtol=1e-12), "want": "ge"})
+                tot2 = float(np.atleast_1d(sm.totalStrength(np.array([ss]), np.array([pr * 1.5 + 1e6])))[0])
+                ev.append({"e": "rel", "group": "C18:total-non-decreasing-in-precipitate-strength", "name": name, "c": cmp3(tot2, tot, rtol=1e-12), "want": "ge"})
+                tot3 = float(np.atleast_1d(sm.totalStrength(np.array([ss * 1.5 + 1e6]), np.array([pr])))[0])
+                ev.append({"e": "rel", "group": "C18:total-non-decreasing-in-solid-solution-strength", "name": name, "c": cmp3(tot3, tot, rtol=1e-12), "want": "ge"})
+            sm.sigma0 = 0.0
+            one = float(np.atleast_1d(sm.totalStrength(np.array([0.0]), np.array([1e7])))[0])
+            ev.append({"e": "rel", "group": "C18:single-part-returned-unchanged", "name": tag, "c": cmp3(one, 1e7, rtol=1e-10), "want": "eq"})
+    except Exception as ex:  # noqa
+        ev.append({"e": "exception", "msg": "%s: %s" % (type(ex).__name__, str(ex)[:200])})
+    return ev
+
+
+def reduction_relations():
+    """the mixed-dislocation formulas at 90 / 0 degrees against the edge / screw formulas (both J models; the mixed formulas carry
+    constants rounded to 3-5 digits: rtol 2e-3).  Events for Relations.tla."""
+    from .kwn_drv import cmp3
+    ev = [{"e": "init"}]
+    pairs = [("coherencyWeak", "coherencyWeakEdge", "coherencyWeakScrew"), ("coherencyStrong", "coherencyStrongEdge", "coherencyStrongScrew"),
+             ("modulusWeak", "modulusWeakEdge", "modulusWeakScrew"), ("APBweak", "APBweakEdge", "APBweakScrew"), ("APBstrong", "APBstrongEdge", "APBstrongScrew"),
+             ("SFEweak", "SFEweakNarrowEdge", "SFEweakNarrowScrew"), ("SFEstrong", "SFEstrongNarrowEdge", "SFEstrongNarrowScrew"),
+             ("interfacialWeak", "interfacialWeakEdge", "interfacialWeakScrew")]
+    try:
+        for jmodel in ("simple", "complex"):
+            for theta, col in ((90, 1), (0, 2)):
+                sm = StrengthModel()
+                sm.setDislocationParameters(G=8e10, b=2.5e-10, nu=1 / 3, theta=theta)
+                sm.setCoherencyParameters(0.01); sm.setModulusParameters(Gp=7e10); sm.setAPBParameters(0.1); sm.setSFEParameters(0.1, 0.05); sm.setInterfacialParameters(0.2)
+                sm.setJfactor(jmodel)
+                for r, Ls in ((2e-9, 3e-8), (8e-9, 1e-7), (3e-8, 2e-7)):
+                    r_, L_, r0 = np.array([r]), np.array([Ls]), np.array([r])
+                    for p in pairs:
+                        with np.errstate(all="ignore"):
+                            mixed = float(np.atleast_1d(getattr(sm, p[0])(r_, L_, r0))[0])
+                            pure = float(np.atleast_1d(getattr(sm, p[col])(r_, L_, r0))[0])
+                        if not (math.isfinite(mixed) and math.isfinite(pure)):
+                            continue
+                        ev.append({"e": "rel", "group": "C18:mixed-formula-reduces-to-%s(%s, J %s)" % ("edge" if theta == 90 else "screw", p[0], jmodel),
+                                   "name": "r=%g Ls=%g" % (r, Ls), "c": cmp3(mixed, pure, rtol=2e-3), "want": "eq"})
+    except Exception as ex:  # noqa
+        ev.append({"e": "exception", "msg": "%s: %s" % (type(ex).__name__, str(ex)[:200])})
+    return ev
+
+
 def to_json(c):
     j = dict(c)
     for k in ("weak", "strong"):
